@@ -15,7 +15,16 @@ Oracle: mc/ref/constants.py (own binary Micheline -> Blake2b -> Base58 `expr` ha
 script, and must not modify its input or the registered expressions.  A subset goes through
 `ContractInterface.from_micheline(script, context)` as well.
 
-Two further families:
+Three further families:
+  * worlds ('build', 'world'): the statement quantifies over SETS of registered expressions, not over the way a context came
+    to hold them.  Every set is put into a context in every order (all permutations) through `register_global_constant`,
+    and as a ready-made mapping hash -> expression handed to `ExecutionContext(global_constants=...)` (items in every order;
+    this is how `ContractInterface.from_micheline` hands the registry on).  While registering, every root reference is
+    judged after every step against the table registered SO FAR (a constant whose inner reference is not registered yet
+    must raise, afterwards it must expand); in the finished world the keys, every constant at the root and in a script
+    slot and the ContractInterface leg are judged.  Every call into pytezos that builds a world (constructor, each
+    registration, reset, registering again) is an observation: a registration that raises although all hashes the constant
+    names are in the set is a violation; refusing a constant that names a hash outside the set (Octez does) is no verdict.
   * literal sets ('lit'): one registered constant whose body carries a literal of every encoding-length class (ints of both
     signs with 1, 2, 3 and more zarith bytes, strings / bytes of length 0, short, >255) bare, nested in data and in a PUSH;
     the constant must be found under its Tezos hash (own encoder) and expand in every fitting slot;
@@ -37,16 +46,20 @@ LEVEL = 'exploration'
 RULE = ('cases = (registered set, script[, entry point]); sets = every sequence of <=3 constants over the body templates '
         '(3 kinds; 0/1/2 holes; hole = plain | reference to an earlier constant of that kind | never-registered hash); scripts = '
         'skeleton with 14 typed slots, <=2 (<=3) of them a reference / unknown hash (at most one unknown); plus per set: registered keys, every '
-        'constant expanded at the root, malformed constant nodes; per set and constant: call histories A-B-A / B-A-B over two contexts '
+        'constant expanded at the root, malformed constant nodes; per set: worlds = the set registered in every order (all permutations; '
+        'every root reference judged after every registration step against the table so far) and handed to the constructor as a '
+        'mapping in every item order, then keys / roots / one script per constant / ContractInterface leg; per set and constant: call histories A-B-A / B-A-B over two contexts '
         '(with / without that constant) and expand-reset-expand-register-expand on one, script = root node or one occupied slot; literal '
         'sets: one constant per (literal, embedding) over ints of both signs up to 2^64, strings and bytes up to 300 long.  Non-trivial = the script names at least one hash; '
-        'distinct by (set, script, entry point)')
+        'distinct by (set, script, entry point, world mode and order)')
 BOUND = {
     'quick': 'all sets of <=2 constants (basic templates) and the connected 3-constant sets without dangling hashes x all '
              'scripts with <=2 occupied slots; histories for every constant of every set (3 orders at the root and first fitting slot, A-B-A at the others); '
-             'literal sets: 27 literals x 3 data embeddings + 19 PUSH int x scripts with <=1 occupied slot; ContractInterface leg for sets of <=2 constants (scripts with <=1 occupied slot; <=2 for sets of <=1)',
+             'literal sets: 27 literals x 3 data embeddings + 19 PUSH int x scripts with <=1 occupied slot; ContractInterface leg for sets of <=2 constants (scripts with <=1 occupied slot; <=2 for sets of <=1); '
+             'worlds: every set x all <=6 registration orders x {register_global_constant, constructor mapping} (ContractInterface leg on every world)',
     'thorough': 'all sets of <=3 constants (basic templates) x scripts with <=2 occupied slots; sets of <=2 constants over the '
-                'extended templates x scripts with <=3 occupied slots; histories and literal sets as quick (literal sets x scripts with <=2 occupied slots); ContractInterface leg for sets of <=2 constants (scripts with <=2 occupied slots)',
+                'extended templates x scripts with <=3 occupied slots; histories and literal sets as quick (literal sets x scripts with <=2 occupied slots); ContractInterface leg for sets of <=2 constants (scripts with <=2 occupied slots); '
+                'worlds: every set x all <=6 registration orders x {register_global_constant, constructor mapping} (ContractInterface leg on worlds of <=2 constants and of 3 with an inner reference)',
 }
 ASSUMPTIONS = [
     'the Tezos expression hash of a registered expression is the script-expression hash of that expression as given to '
@@ -54,6 +67,9 @@ ASSUMPTIONS = [
     'hashes in test_micheline.py)',
     'Octez expands nested constants at registration and keys the constant by the hash of the EXPANDED value; whether pytezos '
     'should do the same is not pinned down by the statement: probed, counted as no verdict',
+    'a context may be handed its registry as a mapping {Tezos expression hash: expression} (the public global_constants '
+    'argument; ContractInterface.from_micheline does so itself): such a mapping counts as the registered set',
+    'a registration that is refused because the constant names a hash outside the set (dangling reference) is not judged',
     'malformed constant nodes (no argument, non-string argument, two arguments, annotated) are not covered by the statement: '
     'observed and counted as no verdict',
     'binary Micheline encoder: mc/ref/micheline.py',
